@@ -41,8 +41,33 @@ const TOUCH_AND_WRITE_ARE_SEPARATE_ACCESSES: bool = false;
 // change-set amounts
 
 /// the amounts of the change-set slots: `a += b` is the non-commutative `a := 3*a + b`
-#[derive(Clone, Copy, Debug, PartialEq, Eq)]
+/// every amount made and every amount destroyed is counted (C16 / C08: each accumulated amount is handed out or
+/// destroyed exactly once, none is leaked and none destroyed twice)
+#[derive(Debug, PartialEq, Eq)]
 pub struct Amt(pub i64);
+
+thread_local! {
+    static AMT_MADE: std::cell::Cell<i64> = std::cell::Cell::new(0);
+    static AMT_GONE: std::cell::Cell<i64> = std::cell::Cell::new(0);
+}
+
+impl Amt {
+    pub fn new(v: i64) -> Amt {
+        AMT_MADE.with(|c| c.set(c.get() + 1));
+        Amt(v)
+    }
+}
+
+impl Drop for Amt {
+    fn drop(&mut self) {
+        AMT_GONE.with(|c| c.set(c.get() + 1));
+    }
+}
+
+/// (amounts made, amounts destroyed) since the last call
+pub fn take_amounts() -> (i64, i64) {
+    (AMT_MADE.with(|c| c.replace(0)), AMT_GONE.with(|c| c.replace(0)))
+}
 
 impl AddAssign for Amt {
     fn add_assign(&mut self, b: Amt) {
@@ -917,21 +942,21 @@ fn drain_p<'h, 'w, T: JoinComp>(_: &'h mut WriteStorage<'w, T>) -> DynPar<'h> {
 fn cs_mut_j<'h>(c: &'h mut ChangeSet<Amt>, delta: i64) -> DynJoin<'h> {
     erase!(J, c, |i, it| {
         let old = it.0;
-        *it += Amt(delta);
+        *it += Amt::new(delta);
         vec![7, old]
     })
 }
 fn cs_mut_l<'h>(c: &'h mut ChangeSet<Amt>, delta: i64) -> DynLendN<'h> {
     erase!(L, c, |i, it| {
         let old = it.0;
-        *it += Amt(delta);
+        *it += Amt::new(delta);
         vec![7, old]
     })
 }
 fn cs_mut_lr<'h>(c: &'h mut ChangeSet<Amt>, delta: i64) -> DynLendR<'h> {
     erase!(LR, c, |i, it| {
         let old = it.0;
-        *it += Amt(delta);
+        *it += Amt::new(delta);
         vec![7, old]
     })
 }
@@ -1364,7 +1389,7 @@ pub fn op_changeset(xs: &mut St, code: i64, p: &[i64]) -> Out {
         if p.len() < 2 || p[1] < 0 || p.len() != 2 + 2 * p[1] as usize {
             return None;
         }
-        p[2..].chunks(2).map(|c| handle(xs, c[0]).map(|e| (e, Amt(c[1])))).collect()
+        p[2..].chunks(2).map(|c| handle(xs, c[0]).map(|e| (e, Amt::new(c[1])))).collect()
     };
     match (code, p.len()) {
         (81, 1) => {
@@ -1373,7 +1398,7 @@ pub fn op_changeset(xs: &mut St, code: i64, p: &[i64]) -> Out {
         }
         (82, 3) => match handle(xs, p[1]) {
             Some(e) => {
-                xs.cs[cs].add(e, Amt(p[2]));
+                xs.cs[cs].add(e, Amt::new(p[2]));
                 vec![7]
             }
             None => vec![8],
